@@ -12,8 +12,8 @@ Grammar (anything else raises `Unsupported`, which the caller turns into a fallb
   stmt   ::= let [mut] pat [: type] [= expr] ;  | place (= | += | -= | *=) expr ;  | expr ;  | const ... ;
            | return [expr] ;  | if ... | match ... | for pat in expr block
   expr   ::= range < or < and < cmp < add < mul < cast (`as`) < unary (! - & &mut *) < postfix < primary
-  postfix::= .name[::<type>](args) | .name | .0 | [expr] | (args) | ?
-  primary::= literal | path | ( expr[, expr]* ) | [ expr, ... ] | if | match | block | name!( ... ) | |params| expr | return
+  postfix::= .name[::<type>](args) | .name | .0 | [expr] | (args) | ?        (`?` is lowered only on Option, in a function returning Option)
+  primary::= literal | path | ( expr[, expr]* ) | [ expr, ... ] | if | match | block | name!( ... ) | |params| expr | return | continue | break
   pat    ::= _ | literal | [-]int | name | [&] path [( pat, ... )] | ( pat, ... ) | pat `|` pat | name @ ..
 """
 import re
@@ -464,6 +464,10 @@ class Parser:
             self.eat("return")
             if self.at(";") or self.at("}"): return ("return", None)
             return ("return", self.expr())
+        if self.at("continue") or self.at("break"):
+            kw = self.eat().text
+            if not (self.at(";") or self.at("}") or self.at(",")): raise Unsupported(kw + " with a label / value")
+            return (kw,)
         if self.at("|") or self.at("||") or self.at("move"):
             if self.at("move"): self.eat()
             params = []
@@ -693,6 +697,30 @@ class SourceFile:
                 p.eat(); p.expr()
             if p.at(","): p.eat(",")
             out.append(v)
+        return out
+
+    def enum_variants_typed(self, name):
+        """[(variant, [payload types])] of an enum with tuple variants"""
+        if name not in self.enums: raise Unsupported(f"enum {name} not found")
+        j, k = self.enums[name]
+        p = Parser(self.toks, j + 1)
+        out = []
+        while p.i < k:
+            p.skip_attrs()
+            if p.i >= k: break
+            v = p.ident()
+            tys = []
+            if p.at("("):
+                p.eat("(")
+                while not p.at(")"):
+                    tys.append(p.type_())
+                    if p.at(","): p.eat(",")
+                p.eat(")")
+            elif p.at("{"): raise Unsupported("struct variant")
+            if p.at("="):
+                p.eat(); p.expr()
+            if p.at(","): p.eat(",")
+            out.append((v, tys))
         return out
 
     def struct_fields(self, name):
